@@ -64,6 +64,8 @@ Proof.
         destruct next; cbn [b2n negb] in *; lia.
       * match goal with H : _ /\ _ /\ _ |- _ => destruct H as (_ & -> & ->) end.
         destruct next; cbn [b2n negb] in *; lia.
+      * match goal with H : _ /\ _ |- _ => destruct H as (-> & ->) end.
+        destruct next; cbn [b2n negb] in *; lia.
     + match goal with H : _ /\ _ /\ _ |- _ => destruct H as (_ & -> & ->) end.
       destruct next; cbn [b2n negb] in *; lia.
 Qed.
@@ -82,7 +84,7 @@ Qed.
 Definition final_reply (h : N) (j : nat) (o : outcome) : reply :=
   match o with
   | OResult => RpResult h j
-  | OError _ | OUnprepared PrepSendFail => RpError h j
+  | OError _ => RpError h j
   | _ => RpConnLost
   end.
 
@@ -225,6 +227,7 @@ Proof.
            { destruct (answer e (sent st1) h') as [|m|[]|]; try contradiction; auto.
              - destruct Hcond as (Hf & _); discriminate.
              - destruct Hcond as (_ & Hf & _); discriminate.
+             - destruct Hcond as (Hf & _); discriminate.
              - destruct Hcond as (_ & Hf & _); discriminate. }
            destruct y as [[] ? ? ?|[] ?]; try contradiction; subst; eauto.
       * inversion Hq; subst. eapply IH; eauto.
@@ -233,7 +236,7 @@ Qed.
 (** *** an idempotent request succeeds whenever some host of its plan answers successfully *)
 Definition moves_on (o : outcome) : Prop :=
   match o with
-  | OResult | OLost | OUnprepared PrepErr | OUnprepared PrepLost => True
+  | OResult | OLost | OUnprepared PrepErr | OUnprepared PrepLost | OUnprepared PrepSendFail => True
   | OError m => forall r, 0 <= r -> handle_error true m r = dec_RetryNext
   | _ => False
   end.
